@@ -7,7 +7,7 @@ distinct from the request bytes.  The theorems say that nothing in a request can
 UID/GID written into a credential or used for the authorisation decision.
 -/
 namespace Munge.C03
-open Munge.Cred Munge.Gen.Dec
+open Munge.Cred Munge.Cred.C Munge.Gen.Dec
 
 /-- Whatever bytes a client sends as an encode or decode request — any field of any well-formed or
     crafted message — the received message has no client/credential identity set: the wire format has no
